@@ -1,4 +1,5 @@
 //! lv_wire: client/server encodings (C16, C17).
+mod evwire;
 mod http;
 mod intcol;
 mod rows;
@@ -9,6 +10,7 @@ fn main() {
     v.extend(xor::suites());
     v.extend(intcol::suites());
     v.extend(rows::suites());
+    v.extend(evwire::suites());
     v.extend(http::suites());
     lvharness::cli_main(v);
 }
